@@ -272,6 +272,12 @@ REGISTRY = [
                         "discount_distance": 1.5}),
     E("proportion_exceeding", "scores.processing", "proportion_exceeding", "mean", False, [("data", "real", "fcst")],
       no_obs=True, kwargs=lambda c: {"thresholds": [0.0, 1.0]}, out_extra_dims=["threshold"]),
+    E("proportion_exceeding_single", "scores.processing", "proportion_exceeding", "mean", False, [("data", "real", "fcst")],
+      no_obs=True, kwargs=lambda c: {"thresholds": 0.5}, notes="scalar threshold: the threshold dim is auto-squeezed"),
+    E("binary_discretise_proportion_autosqueeze", "scores.processing", "binary_discretise_proportion", "mean", False,
+      [("data", "real", "fcst")], no_obs=True, kwargs=lambda c: {"thresholds": [0.5], "mode": "<", "autosqueeze": True}),
+    E("binary_discretise_proportion_scalar", "scores.processing", "binary_discretise_proportion", "mean", False,
+      [("data", "real", "fcst")], no_obs=True, kwargs=lambda c: {"thresholds": 0.5, "mode": ">="}),
     E("binary_discretise_proportion", "scores.processing", "binary_discretise_proportion", "mean", False,
       [("data", "real", "fcst")], no_obs=True, kwargs=lambda c: {"thresholds": [0.0, 1.0], "mode": "<="},
       out_extra_dims=["threshold"]),
@@ -346,7 +352,7 @@ def gen_case(rng, e: Entry, data_dims=None, obs_dims=None, weights_dims=None, si
         k = rng.choice([1, 2, 2, 3])
         data_dims = sorted(rng.sample(UNIVERSE, k))
     if sizes is None:
-        sizes = {d: rng.choice([1, 2, 2, 3]) for d in UNIVERSE}
+        sizes = {d: rng.choice([1, 1, 2, 2, 3]) for d in UNIVERSE}
     sizes = dict(sizes)
     sizes.update(e.specific_sizes)
     if e.no_obs:
